@@ -88,32 +88,39 @@ def _opt(v):
 
 # ------------------------------------------------------------------ sites
 def read_real(rf, env):
+    """keyed on structure: the array (or string) that receives `in.get( A[I++] )` / `S += in.get()`, whatever its name"""
     b = _strip(_body(rf, r"int\s+ReadReal\s*\(\s*SDAI_Real\s*&", "ReadReal"))
-    m = re.search(r"\bchar\s+buf\s*\[\s*([^\]]+)\]\s*;", b)
-    if m:
+    st = re.findall(r"in\s*\.\s*get\s*\(\s*(\w+)\s*\[\s*(\w+)\s*\+\+\s*\]\s*\)", b)
+    if st:
+        names = {x for x, _ in st}; idxs = {y for _, y in st}
+        if len(names) != 1 or len(idxs) != 1:
+            raise ValueError("ReadReal: stores go to more than one array / index")
+        A, I = names.pop(), idxs.pop()
+        m = re.search(r"\bchar\s+" + A + r"\s*\[\s*([^\]]+)\]\s*;", b)
+        if not m:
+            raise ValueError(f"ReadReal: declaration of the array {A} not found")
         cap = env.ev(m.group(1))
-        stores = re.findall(r"in\s*\.\s*get\s*\(\s*buf\s*\[\s*i\s*\+\+\s*\]\s*\)", b)
-        other = re.findall(r"buf\s*\[[^\]]*\]\s*=[^=]", b)
-        if not stores or len(other) != 1 or not re.search(r"buf\s*\[\s*i\s*\]\s*=\s*'\\0'", b):
-            raise ValueError("ReadReal: store pattern `in.get( buf[i++] )` / `buf[i] = '\\0'` not recognised")
-        # a bound on i anywhere in a loop/if condition?  (none in the code this extractor knows)
-        g = re.findall(r"\bi\s*<\s*([A-Za-z_0-9 +\-*()]+?)\s*[)&|]", b)
+        other = re.findall(A + r"\s*\[[^\]]*\]\s*=[^=]", b)
+        if len(other) != 1 or not re.search(A + r"\s*\[\s*" + I + r"\s*\]\s*=\s*(?:'\\0'|0)\s*;", b):
+            raise ValueError("ReadReal: terminator store `A[i] = '\\0'` not recognised")
+        g = re.findall(r"\b" + I + r"\s*<\s*([A-Za-z_0-9 +\-*()]+?)\s*[)&|]", b)
         if g:
-            vals = {env.ev(x.replace("sizeof(buf)", str(cap)).replace("sizeof buf", str(cap))) for x in g}
-            nconds = len(re.findall(r"\bwhile\s*\(|\bif\s*\(", b))
-            # every store must sit under a guard: we only accept the uniform shape (as many guards as stores)
-            if len(g) < len(stores) or len(vals) != 1:
+            vals = {env.ev(re.sub(r"sizeof\s*\(?\s*" + A + r"\s*\)?", str(cap), x)) for x in g}
+            if len(g) < len(st) or len(vals) != 1:
                 raise ValueError("ReadReal: partial / non-uniform index guards are not modelled")
-            return f".fixed {cap}", _opt(vals.pop()), len(stores)
-        return f".fixed {cap}", "none", len(stores)
-    if re.search(r"\bstd::string\s+buf\s*;|\bstring\s+buf\s*;", b):
-        if re.search(r"buf\s*\[[^\]]*\]\s*=[^=]|in\s*\.\s*get\s*\(\s*buf\s*\[", b):
-            raise ValueError("ReadReal: std::string buf written through an index")
-        stores = re.findall(r"buf\s*\+=|buf\s*\.\s*push_back\s*\(", b)
-        if not stores:
-            raise ValueError("ReadReal: std::string buf but no `buf +=` / push_back stores found")
-        return ".growable", "none", len(stores)
-    raise ValueError("ReadReal: declaration of `buf` not recognised")
+            return f".fixed {cap}", _opt(vals.pop()), len(st)
+        return f".fixed {cap}", "none", len(st)
+    st = re.findall(r"\b(\w+)\s*(?:\+=|\.\s*push_back\s*\()\s*\(?\s*(?:\(\s*char\s*\)\s*)?in\s*\.\s*get\s*\(\s*\)", b)
+    if st:
+        if len(set(st)) != 1:
+            raise ValueError("ReadReal: stores go to more than one string")
+        S = st[0]
+        if not re.search(r"\b(?:std::)?string\s+" + S + r"\s*;", b):
+            raise ValueError(f"ReadReal: {S} is not a std::string")
+        if re.search(S + r"\s*\[[^\]]*\]\s*=[^=]|in\s*\.\s*get\s*\(\s*" + S + r"\s*\[", b):
+            raise ValueError("ReadReal: std::string written through an index")
+        return ".growable", "none", len(st)
+    raise ValueError("ReadReal: no store of the shape `in.get( A[i++] )` or `S += in.get()` found")
 
 
 def str_to(strcc, fn, env):
@@ -181,36 +188,116 @@ def entnode(h, env):
     return cap, kind, n, term
 
 
+def _match(b, j, open_ch, close_ch):
+    """offset just past the bracket that closes the one opened before offset j (char and string literals skipped)"""
+    depth = 1
+    while depth:
+        ch = b[j]
+        if ch in "'\"":
+            q = ch
+            j += 1
+            while b[j] != q:
+                j += 2 if b[j] == "\\" else 1
+        elif ch == open_ch:
+            depth += 1
+        elif ch == close_ch:
+            depth -= 1
+        j += 1
+    return j
+
+
+def _cond_of_while_before(b, pos):
+    """(condition text, end offset) of the innermost `while( … ) { … }` whose block encloses offset pos"""
+    best = None
+    for m in re.finditer(r"\bwhile\s*\(", b):
+        if m.start() > pos:
+            break
+        j = _match(b, m.end(), "(", ")")
+        k = j
+        while b[k].isspace():
+            k += 1
+        if b[k] != "{":
+            continue
+        e = _match(b, k + 1, "{", "}")
+        if k < pos < e:
+            best = (b[m.end():j - 1], e)
+    return best
+
+
 def subsuper(sf, env):
+    """keyed on structure: the loop that reads part keywords (`ReadStdKeyword`) — its bound on the number of names —
+    and the container whose address is handed to `new STEPcomplex( … )`"""
     b = _strip(_body(sf, r"STEPfile::CreateSubSuperInstance\s*\(", "CreateSubSuperInstance"))
-    m = re.search(r"const\s+int\s+enaSize\s*=\s*([^;]+);", b)
+    for m in re.finditer(r"const\s+(?:int|unsigned|size_t)\s+(\w+)\s*=\s*([^;]+);", b):
+        try:
+            env.c[m.group(1)] = env.ev(m.group(2))
+        except ValueError:
+            pass
+    k = re.search(r"ReadStdKeyword\s*\(", b)
+    if not k:
+        raise ValueError("CreateSubSuperInstance: the part loop (ReadStdKeyword) was not found")
+    w = _cond_of_while_before(b, k.start())
+    if not w:
+        raise ValueError("CreateSubSuperInstance: ReadStdKeyword is not inside a while loop")
+    cond, loop_end = w
+    g = re.findall(r"\b(\w+)\s*<\s*([A-Za-z_0-9 +\-*()]+?)\s*(?:\)|&&|$)", cond)
+    g = [(v, e) for v, e in g if not re.fullmatch(r"\d+", v)]
+    if len(g) > 1:
+        raise ValueError(f"CreateSubSuperInstance: more than one bound in the part loop condition {cond!r}")
+    guard = env.ev(g[0][1]) if g else None
+    idx = g[0][0] if g else None
+    call = re.search(r"new\s+STEPcomplex\s*\(\s*&\s*_reg\s*,\s*([^,]+),", b)
+    if not call:
+        raise ValueError("CreateSubSuperInstance: `new STEPcomplex( &_reg, <names>, …)` not found")
+    arg = _ws(call.group(1))
+    am = re.search(r"(\w+)(?:\[0\])?$", arg.replace("&", ""))
+    arr = am.group(1)
+    m = re.search(r"std::string\s*\*\s*" + arr + r"\s*\[\s*([^\]]+)\]\s*;", b)
     if m:
-        env.c["enaSize"] = env.ev(m.group(1))
-    m = re.search(r"std::string\s*\*\s*entNmArr\s*\[\s*([^\]]+)\]\s*;", b)
-    if m:
-        cap = f".fixed {env.ev(m.group(1))}"
-        loop = re.search(r"while\s*\(\s*in\.good\(\)\s*&&\s*\(\s*c\s*!=\s*'\)'\s*\)\s*(?:&&\s*\(\s*enaIndex\s*<\s*([^)]+)\))?\s*\)\s*\{", b)
-        if not loop:
-            raise ValueError("CreateSubSuperInstance: part loop condition not recognised")
-        guard = env.ev(loop.group(1)) if loop.group(1) else None
-        if not re.search(r"\}\s*entNmArr\s*\[\s*enaIndex\s*\]\s*=\s*0\s*;", b):
-            raise ValueError("CreateSubSuperInstance: terminator `entNmArr[enaIndex] = 0` not found")
-        return cap, guard
-    if re.search(r"std::vector\s*<\s*std::string\s*\*?\s*>\s*entNmArr", b):
-        return ".growable", None
-    raise ValueError("CreateSubSuperInstance: entNmArr declaration not recognised")
+        cap = env.ev(m.group(1))
+        t = re.search(r"\b" + arr + r"\s*\[\s*(\w+)\s*\]\s*=\s*(?:0|NULL|nullptr)\s*;", b[loop_end:])
+        if not t:
+            raise ValueError(f"CreateSubSuperInstance: terminator `{arr}[i] = 0` after the part loop not found")
+        if idx is not None and t.group(1) != idx:
+            raise ValueError("CreateSubSuperInstance: the terminator index is not the guarded counter")
+        return f".fixed {cap}", guard
+    if re.search(r"std::vector\s*<[^;>]*>\s*" + arr + r"\b", b):
+        return ".growable", guard
+    raise ValueError(f"CreateSubSuperInstance: declaration of the name array {arr!r} not recognised")
 
 
 def complex_ctor(sc, env):
-    b = _strip(_body(sc, r"STEPcomplex::STEPcomplex\s*\(\s*Registry\s*\*\s*registry\s*,\s*const\s+std::string\s*\*\*\s*names", "STEPcomplex(names) ctor"))
-    m = re.search(r"char\s*\*\s*nms\s*\[\s*([^\]]+)\]\s*;", b)
+    """STEPcomplex( Registry *, const std::string ** names, … ): the array the names are copied into and the bound (if any)
+    its copy loop puts on the index"""
+    b = _strip(_body(sc, r"STEPcomplex::STEPcomplex\s*\(\s*Registry\s*\*\s*\w+\s*,\s*const\s+std::string\s*\*\*\s*(\w+)", "STEPcomplex(names) ctor"))
+    pm = re.search(r"STEPcomplex::STEPcomplex\s*\(\s*Registry\s*\*\s*\w+\s*,\s*const\s+std::string\s*\*\*\s*(\w+)", sc)
+    names = pm.group(1)
+    m = re.search(r"char\s*\*\s*(\w+)\s*\[\s*([^\]]+)\]\s*;", b)
     if m:
-        if not re.search(r"for\s*\(\s*j\s*=\s*0\s*;\s*names\[j\]\s*;\s*j\+\+\s*\)", b) or not re.search(r"nms\[j\]\s*=\s*NULL\s*;", b):
-            raise ValueError("STEPcomplex ctor: copy loop not recognised")
-        return f".fixed {env.ev(m.group(1))}"
-    if re.search(r"std::vector\s*<\s*(?:const\s+)?char\s*\*\s*>\s*nms", b):
-        return ".growable"
-    raise ValueError("STEPcomplex ctor: nms declaration not recognised")
+        arr, cap = m.group(1), env.ev(m.group(2))
+        f = re.search(r"for\s*\(\s*(\w+)\s*=\s*0\s*;([^;]*);[^)]*\)", b)
+        if not f or names + "[" + f.group(1) + "]" not in _ws(f.group(2)):
+            raise ValueError("STEPcomplex ctor: copy loop `for( j = 0; names[j] …; j++ )` not recognised")
+        j = f.group(1)
+        if not re.search(arr + r"\s*\[\s*" + j + r"\s*\]\s*=\s*(?:NULL|0|nullptr)\s*;", b):
+            raise ValueError("STEPcomplex ctor: terminator store not recognised")
+        g = re.findall(r"\b" + j + r"\s*<\s*([A-Za-z_0-9 +\-*()]+?)\s*(?:&&|$)", f.group(2).strip())
+        if len(g) > 1:
+            raise ValueError("STEPcomplex ctor: more than one bound in the copy loop")
+        return f".fixed {cap}", (env.ev(g[0]) if g else None)
+    if re.search(r"std::vector\s*<\s*(?:const\s+)?char\s*\*\s*>\s*\w+", b):
+        return ".growable", None
+    raise ValueError("STEPcomplex ctor: declaration of the pointer array not recognised")
+
+
+def skip_comments(rf):
+    """does SkipInstance have the `case '/':` that steps over a comment (peek '*', putback, ReadComment; else keep the '/')?"""
+    b = _ws(_strip(_body(rf, r"Severity\s+SkipInstance\s*\(", "SkipInstance")))
+    if "case'/':" not in b:
+        return False
+    if re.search(r"case'/':if\(in\.peek\(\)=='\*'\)\{(?:std::string\w+;)?in\.putback\(c\);(?:std::string\w+;)?ReadComment\(in,\w+\);\}else\{\w+\+=c;\}break;", b):
+        return True
+    raise ValueError("SkipInstance: `case '/':` present but not of the modelled shape")
 
 
 def read_comment(rf, rh, env):
@@ -219,12 +306,12 @@ def read_comment(rf, rh, env):
         raise ValueError("MAX_COMMENT_LENGTH not found")
     env.c["MAX_COMMENT_LENGTH"] = int(m.group(1))
     b = _strip(_body(rf, r"const\s+char\s*\*\s*ReadComment\s*\(\s*istream\s*&\s*in\s*,", "ReadComment(istream)"))
-    g = re.search(r"while\s*\(\s*commentLength\s*(<=|<)\s*([A-Za-z_0-9 +\-*()]+?)\s*\)\s*\{", b)
+    g = re.search(r"while\s*\(\s*(\w+)\s*(<=|<)\s*([A-Za-z_0-9 +\-*()]+?)\s*\)\s*\{", b)
     if not g:
-        raise ValueError("ReadComment: length guard `while( commentLength <= MAX_COMMENT_LENGTH )` not found")
-    lim = env.ev(g.group(2)) + (1 if g.group(1) == "<=" else 0)   # number of iterations the guard admits
-    if len(re.findall(r"commentLength\s*\+\+", b)) != 2:
-        raise ValueError("ReadComment: both non-terminating branches must count (`commentLength++` twice)")
+        raise ValueError("ReadComment: length guard `while( <counter> <= MAX_COMMENT_LENGTH )` not found")
+    lim = env.ev(g.group(3)) + (1 if g.group(2) == "<=" else 0)   # number of iterations the guard admits
+    if len(re.findall(r"\b" + g.group(1) + r"\s*\+\+|\+\+\s*" + g.group(1) + r"\b", b)) != 2:
+        raise ValueError("ReadComment: both non-terminating branches must count (`<counter>++` twice)")
     return int(m.group(1)), lim
 
 
@@ -419,7 +506,8 @@ def extract(repo):
     p_cap, p_guard = pretty(strcc, env)
     e_cap, e_kind, e_n, e_term = entnode(h, env)
     ss_st, ss_guard = subsuper(sf, env)
-    nms = complex_ctor(sc, env)
+    nms, nms_guard = complex_ctor(sc, env)
+    skipcm = skip_comments(rf)
     mcl, rc_iters = read_comment(rf, rh, env)
     mec = max_errors(inl, sf)
     fh_cap, fh_n, fh_exit = find_header(sf, env)
@@ -464,12 +552,18 @@ def entNodeCtorCopy : CopyKind := {e_kind}
 def entNodeNameN : Nat := {e_n}
 def entNodeNameTerm : Option Nat := {_opt(e_term)}
 
-/-- `CreateSubSuperInstance`: `entNmArr` storage and the loop guard `enaIndex < guard` (none = unguarded) -/
+/-- `CreateSubSuperInstance`: storage of the part-name array handed to STEPcomplex and the part loop's cap on the
+number of names (`<counter> < guard`; none = no cap) -/
 def entNmArrStorage : Storage := {ss_st}
 def entNmArrGuard : Option Nat := {_opt(ss_guard)}
 
 /-- `STEPcomplex( Registry *, const std::string ** names, … )`: `nms` storage (copy loop runs to the NULL entry) -/
 def nmsStorage : Storage := {nms}
+/-- bound the constructor's own copy loop puts on the index (none: it runs to the NULL entry whatever the caller collected) -/
+def nmsLoopGuard : Option Nat := {_opt(nms_guard)}
+
+/-- `SkipInstance` has the `case '/':` that steps over a comment -/
+def skipInstanceSkipsComments : Bool := {b(skipcm)}
 
 /-- `MAX_COMMENT_LENGTH` and the number of iterations `ReadComment`'s guard admits -/
 def maxCommentLength : Nat := {mcl}
